@@ -52,3 +52,8 @@ claim("C16", "PBT (rapid): template grammar with decoys x hostile argument alpha
       "Generated-input search over templates (1-4 placeholders, decoys in strings/identifiers/comments) and arguments over a quote-hostile alphabet; shape equality is judged by the library's own parser, echo by execution; held on everything explored.",
       "Placeholders are separated from neighbouring tokens; nested block comments, backslashes and CR inside comments are not generated; []byte and time.Time arguments are outside the statement.",
       "DESIGN.md 4/C16")
+
+claim("C17", "PBT (rapid): metamorphic option+alternative-spelling vs. canonical-spelling execution over a query grammar with hostile literals/identifiers/aliases and nested arrays, all 7 non-empty option sets; literal echo oracle",
+      "Generated-input search: each query is executed in the variant spelling under the options and in canonical spelling without them; rows must be identical (or both fail); held on everything explored.",
+      "Identifier contents exclude the double quote in double-quoted spelling and the backtick always, and never end in a backslash (escaping there is unspecified).",
+      "DESIGN.md 4/C17")
